@@ -116,11 +116,16 @@ class Mon:
         # cases: an UNPREDICTABLE placement behaves the same in the compared runs, so the relations below still hold
         itpos = 'out' if kind == 'arm' else rng.choice(['last', 'last', 'mid'])
 
+        event_pending = rng.random() < 0.3        # an event signalled from outside is pending (what WFE consumes)
+
         def go(c, nzcv):
             r = random.Random(seed)
             w = setcond(word, c) if kind == 'arm' or setcond is not None else word
             d = scen.prepare(ctx, r, kind, w, mode=mode, itpos=itpos, ns=ns, nzcv=nzcv,
                              itcond=None if (kind == 'arm' or setcond is not None) else c)
+            if event_pending:
+                ctx.cpu.registers.event_register = True
+                d['event_register'] = True
             pre = observe.snapshot(ctx.cpu)
             self.reads_at_code = 0
             k, sig = scen.step(ctx.cpu)
@@ -473,6 +478,8 @@ def replay(data):
     regs = [int(x, 16) for x in rp['regs']]
     mon.scen.prepare(ctx, random.Random(1), rp['kind'], int(rp['word'], 16), mode=rp['mode'], ns=rp['ns'], regs=regs)
     ctx.cpu.registers.cpsr.value = int(rp['cpsr'], 16)
+    if rp.get('event_register'):
+        ctx.cpu.registers.event_register = True
     pre = observe.snapshot(ctx.cpu)
     k, sig = mon.scen.step(ctx.cpu)
     post = observe.snapshot(ctx.cpu)
